@@ -81,7 +81,7 @@ def run_rt(ctx, tree):
     maxlen = ctx.n(5, 6)
     res = inproc.run_shards([[binp, "--enum", ALPHA, str(maxlen), str(i), str(nsh)] for i in range(nsh)])
     v1 = inproc.merge_c_stats(ctx, res, "rt-enum")
-    cnt = ctx.n(150000, 1500000)
+    cnt = ctx.n(120000, 1500000)
     res = inproc.run_shards([[binp, "--rand", str(vlib.subseed(ctx.seed, "c17rt", i)), str(cnt), "200"] for i in range(nsh)])
     v2 = inproc.merge_c_stats(ctx, res, "rt-rand")
     ctx.exhaustive = True
@@ -714,7 +714,7 @@ def run(ctx):
         tree.make("qmail-inject")
         reg = regress_scenarios()
         nw = vlib.NCPU
-        per = ctx.n(6000, 100000)
+        per = ctx.n(4500, 80000)
         jobs = [(tree, i, vlib.subseed(ctx.seed, "c17", i), per, reg[i::nw]) for i in range(nw)]
         ctx.stats.merge(vlib.run_workers(worker, jobs))
     if not only and not ctx.stats.violations:
